@@ -360,7 +360,7 @@ def reductions(t):
             if t[2] - t[1] <= 3:
                 out.append(["set", list(range(t[1], t[2] + 1))])
             else:
-                out.append(["range", t[1], t[1] + 1])
+                out += [["range", t[1], t[1] + 1], ["range", t[2] - 1, t[2]], ["set", [t[1], t[2]]]]
         if k in ("set", "nset") and len(t[1]) == 1 and k == "set":
             out.append(["lit", t[1][0]])
     else:
@@ -491,18 +491,21 @@ def report_rejections(chk, build, sc, evs, rej, per_stage=16, stages=3):
     """group the rejected results by structural key (signature of the minimised case) and report each key once"""
     found = {}            # key -> [cls, minimal event, [ids]]
     rest = sorted(rej, key=lambda i: weight((evs[i]["sre"], evs[i]["s"])))
-    for stage in range(stages):
-        # attribute what contains an already minimised pattern
+    def attribute(rest):
+        # what contains an already minimised pattern (or is an already minimised SRE with another subject) joins that key
         left = []
         for i in rest:
             cls = fclass(rej[i])
             for key, f in found.items():
-                if f[0] == cls and contains(f[1]["sre"], evs[i]["sre"]):
+                if f[0] == cls and (contains(f[1]["sre"], evs[i]["sre"]) or json.dumps(evs[i]["sre"]) in f[3]):
                     f[2].append(i)
                     break
             else:
                 left.append(i)
-        rest = left
+        return left
+
+    for stage in range(stages):
+        rest = attribute(rest)
         if not rest:
             break
         # minimise the smallest remaining ones, one per coarse signature
@@ -518,13 +521,16 @@ def report_rejections(chk, build, sc, evs, rej, per_stage=16, stages=3):
         shrink_all(build, sc, items, "s%d" % stage)
         for i, it in zip(chosen, items):
             key = "%s:%s" % (it["cls"], signature(it["last"]["sre"]))
-            found.setdefault(key, [it["cls"], it["last"], []])[2].append(i)
+            f = found.setdefault(key, [it["cls"], it["last"], [], set()])
+            f[2].append(i)
+            f[3].add(json.dumps(evs[i]["sre"]))          # the same SRE with other subjects belongs to the same key
         rest = [i for i in rest if i not in set(chosen)]
+    rest = attribute(rest)
     if rest:
         for i in rest:
             key = "%s:unshrunk" % fclass(rej[i])
-            found.setdefault(key, [fclass(rej[i]), dict(evs[i], clauses=rej[i]), []])[2].append(i)
-    for key, (cls, m, ids) in sorted(found.items()):
+            found.setdefault(key, [fclass(rej[i]), dict(evs[i], clauses=rej[i]), [], set()])[2].append(i)
+    for key, (cls, m, ids, _) in sorted(found.items()):
         ex = [dict(evs[i], clauses=rej[i]) for i in ids[:5]]
         msg = ("%d recorded results rejected by Regex.tla; minimal: sre=%s subject=%s clauses=%s recorded matches?=%s matches=%s search=%s err=%s"
                % (len(ids), m.get("datum"), json.dumps("".join(map(chr, m["s"]))), m.get("clauses"), m["m"], m["mm"] if m["mf"] else "#f",
